@@ -859,7 +859,7 @@ func (vm *VirtualMachine) callFunction(
 	baseSP := vm.sp
 
 	// Restore the previous frame when done
-	defer vm.resumeFrame(baseFP, baseIP, baseSP)
+	defer vm.unwindFrame(baseFP, baseIP, baseSP)
 
 	// Assemble frame local variables in vm.tmp. The local variable order is:
 	// 1. Function parameters
@@ -972,6 +972,21 @@ func (vm *VirtualMachine) resumeFrame(fp, ip, sp int) *frame {
 	return vm.activeFrame
 }
 
+// Unwind to the frame at the given frame pointer, restoring the given IP and
+// SP exactly. Unlike resumeFrame this keeps nothing from the frame that is
+// being left: it is used when a call made from Go ends (its result has been
+// taken from the stack already) or is aborted by an error, in which case
+// whatever the frame had on the stack at that point is not a result.
+func (vm *VirtualMachine) unwindFrame(fp, ip, sp int) *frame {
+	for i := vm.sp; i > sp; i-- {
+		vm.stack[i] = nil
+	}
+	if vm.sp > sp {
+		vm.sp = sp
+	}
+	return vm.resumeFrame(fp, ip, sp)
+}
+
 // Activate a frame with the given code. This is typically used to begin
 // running the entrypoint for a module or script.
 func (vm *VirtualMachine) activateCode(fp, ip int, code *code) *frame {
@@ -1060,7 +1075,7 @@ func (vm *VirtualMachine) importModule(ctx context.Context, name string) (*objec
 	code := vm.loadCode(module.Code())
 	vm.activateCode(vm.fp+1, 0, code)
 	// Restore the previous frame when done
-	defer vm.resumeFrame(baseFP, baseIP, baseSP)
+	defer vm.unwindFrame(baseFP, baseIP, baseSP)
 	// Evaluate the module code
 	if err := vm.eval(ctx); err != nil {
 		return nil, err
